@@ -21,6 +21,7 @@ var SigmaTiny = []string{"a", "(", ")", ":", "NOT", "+"}
 // Fragments are well-formed pieces for random longer sequences.
 var Fragments = append(append([]string{}, Sigma...), "a:b", "a : 5", "f:[1 TO 5]", "f:{* TO b}", "f:(x OR y)", "f:(x OR (y OR z))", "f:(x OR x)", "f:(x OR y OR z*)", "a:>5", "a:<=2",
 	"( a OR b )", "(+a):b", "( a ):b", "a:( b )", "NOT a", "+ a", "- a", "a ~ 2", "a ^ 1.5", "a AND b", "a OR b", `"p q"`, "w*", "/r e/", `/a\\/`, "5:x", "-٣", "18446744073709551616", "18446744073709551620", "-18446744073709551620", "20000000000000000000", "-9223372036854775808", "9223372036854775807", "a:99999999999999999999", "a~18446744073709551620", "a:(b AND c)", "a:(NOT b)", "a:b:c", "a:(b:c)",
+	"010", "a:017", "a:[010 TO 020]", "a:(b:c:d)", "k:>(a:b:c)", "NOT a:b:c", "+a:b:c", "f:(NOT (a b):c*)", "a:((x OR y):z)", "f:(u:v:(1 OR 2))", "a:b:c~", "(a b):c^2",
 	"a:b:>5", "(a OR b):>5", "(a b):<=3", "a:b:[1 TO 2]", "(a OR b):{1 TO 5}", "(NOT a):[* TO 10]", "a:[1 TO 2]:<7", "(a):b", "(a):>5", "(a):[1 TO 2]", `a:["*" TO 5]`, `a:[\* TO 5]`, `a:{"b?" TO "/x/"}`, `b*\\\`, `a:b*\\\`)
 
 // TokSeqs is the space of all token sequences of length 1..L over an alphabet, joined by Sep.
